@@ -778,6 +778,12 @@ func (eng *Engine) fromCF(env *Env, c CF, t types.Type, key string) AV {
 	case KBool:
 		return boolAV(c.B)
 	case KNum:
+		if c.Set == nil {
+			if bt, ok := t.Underlying().(*types.Basic); ok && bt.Info()&types.IsInteger != 0 {
+				// an unknown integer gets a symbolic base so that x, x+1, x-1 stay related
+				return AV{K: KNum, Base: eng.internSym(key + "#int")}
+			}
+		}
 		return AV{K: KNum, Set: c.Set}
 	case KPtr:
 		s := eng.internSym(key)
